@@ -32,6 +32,10 @@ package k8s
 //@         && (forall q v1.Protocol :: {q in res.PassConns.AllowedProtocols} !(q in res.PassConns.AllowedProtocols))
 
 //@ func (*PolicyConnections).UpdateWithRuleConns
+//@   hint ensures.wf: requires, call*.wf, call*.pts, call*.others
+//@   hint ensures.allow: requires, call*.wf, call*.pts, call*.others
+//@   hint ensures.deny: requires, call*.wf, call*.pts, call*.others
+//@   hint ensures.pass: requires, call*.wf, call*.pts, call*.others
 //@   requires wfPC(pc) && wfCS(ruleConns) && sepPCCS(pc, ruleConns) && disjPC(pc)
 //@   modifies common.ConnectionSet.AllowAll { r | true }, common.ConnectionSet.AllowedProtocols { r | true }
 //@   modifies map[v1.Protocol]*common.PortSet { m | true }, common.PortSet.Ports { r | true }, map[string]bool { m | true }
@@ -537,6 +541,7 @@ package k8s
 //@   ensures [C06,C08] egress: !isIngress ==> ptsPlus(pod.EgressExposureData.ClusterWideConnection, ruleConns)
 //@   ensures [C06,C08] ingress: isIngress ==> ptsGrows(pod.IngressExposureData.ClusterWideConnection, ruleConns)
 //@   ensures [C06] ingressSound: isIngress ==> ptsGainSound(pod, pod.IngressExposureData.ClusterWideConnection, ruleConns)
+//@   hint ensures.ingressSound: requires, call1.sound, call1.kept, call1.copy, call1.nonames, call2.pts, call3.pts, call2.others, call3.others
 
 // what one policy allows between the two ends in a direction (C01): the union over its rules
 //@ fun ingressPolicyPts(np *NetworkPolicy, src Peer, dst Peer, q string, n int) bool =
